@@ -25,3 +25,4 @@ def rules(ctx):
     S.refcount_rules(ctx)
     S.handle_close_rules(ctx)
     S.commit_mode_setter_rules(ctx)
+    S.state_writer_rules(ctx)
